@@ -138,3 +138,7 @@ Proof.
     unfold entry_bytes. rewrite app_assoc. reflexivity. }
   apply (G []).
 Qed.
+
+(** Tie to the generated shape of ChangeHash: nothing but the ForEach callback writes to the hash. *)
+Lemma change_hash_no_other_writes : change_hash_extra_writes = 0%nat.
+Proof. reflexivity. Qed.
